@@ -11,7 +11,8 @@ Oracle (the property evaluated on what gnpy produced, from the workbook descript
 per ROADM site, fused / amplifier pair per line site, one fibre per direction per link with the values of its side
 (west defaulting to east), end points exist, uids unique, every line element has exactly one predecessor and one
 successor, Eqpt settings sit on the amplifier facing the named neighbour, `network_from_json` + `designed_network`
-succeed; every malformed workbook (exactly one violated rule) raises NetworkTopologyError; every service row becomes
+succeed; every malformed workbook (exactly one of the ten sanity rules violated, or a mandatory header missing)
+raises NetworkTopologyError naming that rule; every service row becomes
 one request with converted units, route list, strictness and synchronisation vector.
 The for-all part is Props/C20.v.
 """
@@ -48,9 +49,10 @@ ROADM_HDR = ['Node A', 'Node Z', 'per degree target power (dBm)', 'type_variety'
 SVC_KEYS = ['id', 'src', 'dst', 'trx', 'mode', 'spacing', 'power', 'nbch', 'disj', 'path', 'loose', 'bw']
 SVC_HDR = ['route id', 'Source', 'Destination', 'TRX type', 'Mode', 'System: spacing', 'System: input power (dBm)',
            'System: nb of channels', 'routing: disjoint from', 'routing: path', 'routing: is loose?', 'path bandwidth']
-RULES = ['duplicate_city', 'link_unknown_node', 'duplicate_link', 'unreferenced_node', 'eqpt_unknown_node',
+RULES = ['duplicate_city', 'link_unknown_node', 'self_loop_link', 'fused_degree', 'duplicate_link', 'unreferenced_node', 'eqpt_unknown_node',
          'eqpt_unknown_link', 'duplicate_eqpt', 'duplicate_ila']
-MSG2RULE = [('Duplicate city', 'duplicate_city'), ('The Links sheet references nodes', 'link_unknown_node'),
+MSG2RULE = [('connect a node to itself', 'self_loop_link'), ('FUSED nodes must have exactly two links', 'fused_degree'),
+            ('Duplicate city', 'duplicate_city'), ('The Links sheet references nodes', 'link_unknown_node'),
             ('are duplicate', 'duplicate_link'), ('not referenced from the Links sheet', 'unreferenced_node'),
             ('The Eqpt sheet refers to nodes', 'eqpt_unknown_node'),
             ('The Eqpt sheet references links', 'eqpt_unknown_link'),
@@ -379,8 +381,7 @@ def mutate(rng, base, rule):
         if any(isinstance(v, str) and h in v for rows in sheet_grids(c).values() for r in rows[5:] for v in r):
             return None
         c['layout']['drop_header'] = (sheet, h)
-    # ---- inconsistent rows that no documented rule names (see known findings)
-    elif rule == 'self_loop':
+    elif rule == 'self_loop_link':
         a = rng.choice(cities)
         c['links'].insert(rng.randint(0, len(c['links'])), {'a': a, 'z': a, 'east': gen_side(rng, 0.5), 'west': gen_side(rng, 0)})
     elif rule == 'fused_degree':
@@ -396,6 +397,7 @@ def mutate(rng, base, rule):
             c['nodes'].append({'city': fresh, 'state': None, 'country': None, 'region': None, 'latitude': 1, 'longitude': 2,
                                'type': 'FUSED', 'booster': None, 'preamp': None})
             c['links'].append({'a': fresh, 'z': rng.choice(cities), 'east': gen_side(rng, 0.5), 'west': gen_side(rng, 0)})
+    # ---- inconsistent rows that no rule names (open finding C20-eqpt-on-fused)
     elif rule == 'eqpt_on_fused':
         sites = [a for a in cities if types[a] == 'FUSED' and len(adj[a]) == 2]
         if not sites:
@@ -1166,7 +1168,7 @@ def run(ctx):
             elif rng.random() < 0.7:
                 c['services'] = gen_services(rng, c, modelled=False)
                 c['svc_modelled'] = False
-        kinds = RULES + ['missing_header', 'self_loop', 'fused_degree', 'eqpt_on_fused']
+        kinds = RULES + ['missing_header', 'eqpt_on_fused']
         k = 0
         while len(malformed) < nmal and k < 20 * nmal:
             k += 1
@@ -1420,7 +1422,5 @@ def _is(rule, keys):
 
 
 MATCHERS = {
-    'C20-self-loop-link': _is('self_loop', ('malformed_converted', 'malformed_wrong_error')),
-    'C20-fused-degree': _is('fused_degree', ('malformed_converted', 'malformed_wrong_error')),
     'C20-eqpt-on-fused': lambda v: v['key'] == 'eqpt_on_fused_orphan' or _is('eqpt_on_fused', ('malformed_converted',))(v),
 }
